@@ -34,9 +34,11 @@ META = {
         'ON/OFF, INPUT line editing and mode switches check the cursor-range and report-consistency invariants only. '
         'Held = no disagreement on the observed histories.'),
     'level_note': (
-        'Trusted: harness, R-TXT. Not pinned by the statement and therefore accepted either way / not generated: whether '
-        'PRINT starts a string that does not fit in the rest of the row on a new line (GW-BASIC rule; both placements '
-        'accepted, the one observed is counted); whether the wrap after a PRINT ...; that ends exactly in the last column of '
+        'Trusted: harness, R-TXT. The reference placement includes GW-BASIC\'s PRINT rule: an output item that does not fit '
+        'in the rest of the row (cursor not in column 1) starts on the next row; it is demanded for PRINT of strings of '
+        'every composition (spaces, bytes 128-254), several items, numbers, WRITE and PRINT# to SCRN:. Control characters '
+        'are not generated in modelled output. Not pinned by the statement and therefore accepted either way / not '
+        'generated: whether WRITE / PRINT# end a line that filled the last column with one or two row advances; whether the wrap after a PRINT ...; that ends exactly in the last column of '
         'the window\'s bottom row scrolls at once or only when the next character arrives (both accepted and counted; '
         'pcbasic does either depending on a stale line-continuation flag of that row); where VIEW PRINT, WIDTH and SCREEN leave the cursor (the model is '
         're-synchronised by LOCATE / CLS after them); output on row 25 and SCREEN(r,c) outside an active VIEW PRINT '
@@ -49,7 +51,9 @@ META = {
     'design_ref': 'DESIGN.md section 4 C36',
     'assumptions': ['GW-BASIC screen-editor semantics as encoded in vf/models/c36_rtxt.py'],
     'require_counters': {'any': ['model_steps', 'wraps_seen', 'scrolls_seen', 'scrolls_inside_view_window', 'rows_outside_window_checked',
-                                 'locate_ok', 'locate_error5', 'last_column_state_seen', 'boundary_invariant_checks', 'row25_followups_completed', 'next_char_probes', 'repositions_from_last_column_state',
+                                 'locate_ok', 'locate_error5', 'last_column_state_seen', 'boundary_invariant_checks', 'row25_followups_completed', 'next_char_probes', 'new_line_rule_decided_placement',
+                                 'new_line_rule_decided_placement_string_with_spaces', 'output_steps_items', 'output_steps_numbers',
+                                 'output_steps_write', 'output_steps_file', 'repositions_from_last_column_state',
                                  'screen_fn_samples', 'wild_steps', 'graphics_mode_histories', 'width40_histories',
                                  'control_code_steps']},
     'timeout': {'quick': 900, 'thorough': 7200},
@@ -93,6 +97,27 @@ def plan(tier, seed):
 
 def rstr(rng, n):
     return bytes(rng.choice(PRINTABLE) for _ in range(n))
+
+
+def rtext(rng, n):
+    """Printable text of varied composition: plain, space-heavy, only spaces, spaces at the ends, bytes 128-254."""
+    k = rng.random()
+    if k < 0.35:
+        return rstr(rng, n)
+    if k < 0.6:
+        return bytes(32 if rng.random() < 0.5 else rng.choice(PRINTABLE) for _ in range(n))
+    if k < 0.68:
+        return b' ' * n
+    if k < 0.8:
+        a = rng.randint(0, n)
+        b = rng.randint(0, n - a)
+        return b' ' * a + rstr(rng, n - a - b) + b' ' * b
+    if k < 0.9:
+        return bytes(rng.choice([rng.randint(128, 254), 32, rng.choice(PRINTABLE)]) for _ in range(n))
+    words = b''
+    while len(words) < n:
+        words += rstr(rng, rng.randint(1, 9)).replace(b' ', b'x') + b' ' * rng.randint(1, 3)
+    return words[:n]
 
 
 class Run(object):
@@ -243,6 +268,7 @@ class Run(object):
 
     def resync(self):
         """Back to a cleared screen with a known cursor: start of a modelled segment."""
+        self.scrn_open = False
         for cmd in (b'KEY OFF', b'VIEW PRINT', b'CLS', b'LOCATE 1,1'):
             out = self.ex(cmd)
             if self.err(out):
@@ -268,6 +294,8 @@ class Run(object):
     def compare(self, what, nontrivial, alts=None):
         """Compare the session with the model (or any of the alternative models); adopt the matching one."""
         res = self.res
+        if alts is None:
+            self.rule_matters = False
         obs = self.observe()
         res.count('model_steps')
         res.case((self.name, len(self.history), self.digest), nontrivial=nontrivial)
@@ -293,7 +321,8 @@ class Run(object):
             c = next(j for j in range(len(grid[r])) if grid[r][j] != m.grid[r][j])
             outside = not m.in_window(r + 1)
             key = 'text:row-outside-window-changed' if outside else (
-                'text:placement:after-scroll' if m.scrolls else ('text:placement:after-wrap' if m.wraps else 'text:placement'))
+                'text:placement:string-not-fitting-in-rest-of-row' if getattr(self, 'rule_matters', False) else (
+                    'text:placement:after-scroll' if m.scrolls else ('text:placement:after-wrap' if m.wraps else 'text:placement')))
             res.violation(key, '%s: after %s the screen has %r at row %d col %d, the reference %r (window %d-%d, model cursor %d,%d%s)' % (
                 self.name, what, chr(grid[r][c]), r + 1, c + 1, chr(m.grid[r][c]), m.top, m.bottom, m.row, m.col,
                 ' wrapped' if m.wrapped else ''), self.case())
@@ -323,21 +352,93 @@ class Run(object):
                 return
 
     # -- modelled steps ---------------------------------------------------------------------------------------------
-    def step_print(self, s, newline):
+    def alternatives(self, words, newline, single_newline_too=False):
+        """
+        Reference placements of a sequence of output items (each item is subject to the rule "an item that does
+        not fit in the rest of the row starts on the next row"), over the timings the statement does not pin.
+        """
         m = self.model
-        before_scrolls, before_wraps = m.scrolls, m.wraps
         alts, tags = [], []
-        for br in (True, False):
+        for single in ((False, True) if single_newline_too else (False,)):
             for eager in (False, True):
                 c = m.copy()
-                c.break_rule = br
-                c.print_(s, newline, eager_final=eager)
                 c.break_rule = True
+                for w in words[:-1]:
+                    c.print_(w, False)
+                c.print_(words[-1] if words else b'', newline, eager_final=eager, single_newline=single)
                 st = (c.grid, c.row, c.col, c.wrapped)
                 if not any(st == (o.grid, o.row, o.col, o.wrapped) for o in alts):
                     alts.append(c)
-                    tags.append((br, eager))
+                    tags.append((True, eager))
         self.alt_tags = tags
+        # diagnosis only: would the placement without the new-line rule differ?
+        c = m.copy()
+        c.break_rule = False
+        for w in words[:-1]:
+            c.print_(w, False)
+        c.print_(words[-1] if words else b'', newline)
+        self.rule_matters = c.grid != alts[0].grid
+        return alts
+
+    def step_output(self, kind, words, newline=True):
+        """
+        Output through another route than a single PRINT "string":
+          items    PRINT "a";"b";...        each item placed by the rule separately
+          numbers  PRINT n;n;...            an item is sign-or-space, digits, one space
+          write    WRITE "a",n,...          one item: "a",n,... and one carriage return
+          file     PRINT #1,"a";"b" to SCRN: opened FOR OUTPUT; one carriage return
+        """
+        m = self.model
+        before_scrolls, before_wraps = m.scrolls, m.wraps
+        if kind == 'items':
+            cmd = b'PRINT ' + b';'.join(b'"%s"' % w for w in words) + (b'' if newline else b';')
+            alts = self.alternatives(words, newline)
+        elif kind == 'numbers':
+            cmd = b'PRINT ' + b';'.join(b'%d' % n for n in words) + (b'' if newline else b';')
+            alts = self.alternatives([(b' %d ' % n) if n >= 0 else (b'%d ' % n) for n in words], newline)
+        elif kind == 'write':
+            parts = [(b'"%s"' % w) if isinstance(w, bytes) else (b'%d' % w) for w in words]
+            cmd = b'WRITE ' + b','.join(parts)
+            newline = True
+            alts = self.alternatives([b','.join(parts)], True, single_newline_too=True)
+        elif kind == 'file':
+            if not getattr(self, 'scrn_open', False):
+                if self.err(self.ex(b'CLOSE:OPEN "SCRN:" FOR OUTPUT AS 1')):
+                    self.model = None
+                    return
+                self.scrn_open = True
+            cmd = b'PRINT#1,' + b';'.join(b'"%s"' % w for w in words) + (b'' if newline else b';')
+            alts = self.alternatives(words, newline, single_newline_too=True)
+        else:
+            raise ValueError(kind)
+        if len(cmd) > 250:
+            return
+        out = self.ex(cmd)
+        if self.err(out):
+            self.res.violation('print:unexpected-error', '%s: %s output raised error %d' % (self.name, kind, self.err(out)), self.case())
+            self.model = None
+            return
+        self.res.count('output_steps_' + kind)
+        if self.rule_matters:
+            self.res.count('new_line_rule_decided_placement')
+        ok = self.compare('%s output of %d item(s)%s from %d,%d%s' % (kind, len(words), '' if newline else ';', m.row, m.col,
+                                                                     ' (wrapped)' if m.wrapped else ''), True, alts)
+        if ok:
+            m2 = self.model
+            if m2.scrolls > before_scrolls:
+                self.res.count('scrolls_seen', m2.scrolls - before_scrolls)
+            if m2.wraps > before_wraps:
+                self.res.count('wraps_seen', m2.wraps - before_wraps)
+
+    def step_print(self, s, newline):
+        m = self.model
+        before_scrolls, before_wraps = m.scrolls, m.wraps
+        alts = self.alternatives([s], newline)
+        tags = self.alt_tags
+        if self.rule_matters:
+            self.res.count('new_line_rule_decided_placement')
+            if b' ' in s:
+                self.res.count('new_line_rule_decided_placement_string_with_spaces')
         out = self.ex(b'PRINT "%s"%s' % (s, b'' if newline else b';'))
         if len(self.res.samples) < 4 and len(s) > 20:
             self.res.sample({'mode': self.name, 'step': 'PRINT', 'chars': len(s), 'newline': newline, 'from': [m.row, m.col, m.wrapped],
@@ -706,8 +807,30 @@ class Run(object):
                 k = rng.random()
                 if k < 0.55:
                     n = rng.choice([rng.randint(0, W - 1), rng.randint(0, 12), W - 1, W, W + 1, 2 * W, rng.randint(W, 3 * W), rng.randint(0, 400)])
+                    rem = W - m.col + 1
+                    if not m.wrapped and m.col > 1 and rng.random() < 0.45:
+                        # lengths around what is left of the row
+                        n = max(0, rem + rng.randint(-2, 2))
                     n = min(n, 240)     # one direct line holds 255 characters
-                    self.step_print(rstr(rng, n), rng.random() < 0.6)
+                    route = rng.random()
+                    if route < 0.62:
+                        self.step_print(rtext(rng, n), rng.random() < 0.6)
+                    elif route < 0.74:
+                        k2 = rng.randint(1, 4)
+                        cuts = sorted(rng.randint(0, n) for _ in range(k2 - 1))
+                        txt = rtext(rng, n)
+                        items = [txt[a:b] for a, b in zip([0] + cuts, cuts + [n])]
+                        if sum(len(i) for i in items) + 4 * len(items) < 230:
+                            self.step_output('items', items, rng.random() < 0.6)
+                    elif route < 0.84:
+                        self.step_output('numbers', [rng.choice([rng.randint(-9, 9), rng.randint(-32768, 32767), rng.randint(0, 999)])
+                                                     for _ in range(rng.randint(1, 9))], rng.random() < 0.6)
+                    elif route < 0.92:
+                        self.step_output('write', [rtext(rng, min(n, 120)).replace(b',', b'.')] + [rng.randint(-999, 9999) for _ in range(rng.randint(0, 2))])
+                    else:
+                        txt = rtext(rng, min(n, 200))
+                        h2 = rng.randint(0, len(txt))
+                        self.step_output('file', [txt[:h2], txt[h2:]] if rng.random() < 0.5 else [txt], rng.random() < 0.6)
                 elif k < 0.72:
                     if rng.random() < 0.75:
                         r_, c_ = rng.randint(m.top, m.bottom), rng.choice([1, W, W - 1, rng.randint(1, W)])
@@ -770,6 +893,25 @@ def directed(harness, res):
             (MODES[5], [b'KEY ON', b'LOCATE 1,70', b'SCREEN 3', b'PRINT "x";', b'LOCATE 25,20', b'SCREEN 0', b'WIDTH 80']),
     ):
         Run(harness, res, rng, mode).run(0, [('wild_script', stmts)])
+    # the new-line rule: strings of several compositions, lengths around what is left of the row, every kind of start column
+    for mode in (MODES[0], MODES[1], MODES[10]):
+        W = mode[3]
+        sc = []
+        row = 2
+        for c in (2, W // 2, W - 5, W - 1, W):
+            rem = W - c + 1
+            for d in (-1, 0, 1, 2, W):
+                n = max(1, rem + d)
+                for comp in (lambda n: b'x' * n, lambda n: (b'ab ' * n)[:n], lambda n: b' ' * n, lambda n: b' ' + b'y' * (n - 2) + b' ' if n > 2 else b' ' * n):
+                    row = row + 2 if row < 20 else 2
+                    if row == 2:
+                        sc.append(('cls',))
+                    sc += [('locate', row, c), ('print', comp(n), n % 2 == 0)]
+        sc += [('cls',), ('locate', 3, W - 6), ('output', 'items', [b'ab cd', b'e f', b'  ', b'ghijkl mn'], True),
+               ('locate', 6, W - 4), ('output', 'numbers', [1, -22, 333, 4444], True),
+               ('locate', 9, W - 7), ('output', 'write', [b'a b c', 12], True),
+               ('locate', 12, W - 6), ('output', 'file', [b'uv w', b'x  yz'], True)]
+        Run(harness, res, rng, mode).run(0, sc)
     # every statement that repositions the cursor, executed from the last-column (pending wrap) state, then output
     for mode in (MODES[0], MODES[1], MODES[7], MODES[10], MODES[5]):
         for kind in ('view-print', 'view-print-off', 'cls', 'locate', 'key', 'width', 'screen'):
